@@ -328,6 +328,12 @@ func genPointD(t *rapid.T, gi *GroupInfo, label string, depth int) PVal {
 	if gi.Hash != nil {
 		classes = append(classes, "hash")
 	}
+	if gi.Family == "p256" && gi.HasPick && gi.Order != nil && gi.Order.BitLen() == 256 {
+		// a point whose x coordinate lies between the group order n and the field prime p (a band of
+		// width ~2^128 that random multiples never hit): picked from a stream crafted so that every
+		// 32-byte candidate starts with the leading bytes of n, the next byte one higher
+		classes = append(classes, "x-in-[n,p)")
+	}
 	if gi.Role == 3 {
 		classes = append(classes, "pair", "pair")
 	}
@@ -374,6 +380,14 @@ func genPointD(t *rapid.T, gi *GroupInfo, label string, depth int) PVal {
 		seed := genSeed(t, label+".seed")
 		pv.P = markVT(gi, g.Point().Embed(data, xofStream(seed)))
 		pv.Desc = fmt.Sprintf("Embed(%x,%x)", data, seed)
+	case "x-in-[n,p)":
+		seed := genSeed(t, label+".seed")
+		nb := bigToBytes(gi.Order, 32, false)
+		k := 16 // n = ffffffff 00000000 ffffffffffffffff bce6faad...: bytes 0..15 are shared with [n, p)
+		prefix := append(append([]byte(nil), nb[:k]...), nb[k]+1+byte(rapid.IntRange(0, 0x40).Draw(t, label+".bump")))
+		pv.P = markVT(gi, g.Point().Pick(&prefixBlockStream{prefix: prefix, inner: xofStream(seed)}))
+		pv.Desc = fmt.Sprintf("Pick(x starting with %x, %x)", prefix, seed)
+		pv.Edge = true
 	case "hash":
 		msg := rapid.SliceOfN(rapid.Byte(), 0, 40).Draw(t, label+".msg")
 		pv.P = markVT(gi, gi.Hash(msg, nil))
@@ -458,4 +472,22 @@ func isRapidPanic(p any) bool {
 		return true
 	}
 	return false
+}
+
+// prefixBlockStream: a random stream whose every request of a whole coordinate (>= len(prefix) bytes)
+// starts with a fixed prefix; shorter requests (sign bits) are passed through.
+type prefixBlockStream struct {
+	prefix []byte
+	inner  cipher.Stream
+}
+
+func (s *prefixBlockStream) XORKeyStream(dst, src []byte) {
+	var head []byte
+	if len(src) >= len(s.prefix) && len(src) >= 16 {
+		head = append(head, src[:len(s.prefix)]...) // dst and src may be the same slice
+	}
+	s.inner.XORKeyStream(dst, src)
+	for i := range head {
+		dst[i] = head[i] ^ s.prefix[i]
+	}
 }
